@@ -233,7 +233,7 @@ pub fn trailing_garbage_growth() -> Result<u64, Violation> {
 
 /// C17 under injected write faults: a metadata setter fails at its N-th write/seek/flush call
 /// (every N, two error kinds, with and without side effects of the failing call), the caller
-/// repeats it (same value, or a different one), and once a call has returned Ok the value is
+/// repeats it (same value, a different one, or the value the object had before), and once a call has returned Ok the value is
 /// what entry() shows and what the raw bytes show when reopened in both modes.
 pub fn metadata_retry_after_fault() -> Result<(u64, u64), Violation> {
     use crate::backend::{FaultDomain, Io};
@@ -254,14 +254,15 @@ pub fn metadata_retry_after_fault() -> Result<(u64, u64), Violation> {
                 if path == "/" && setter >= 2 {
                     continue;
                 }
-                for same_value in [true, false] {
+                for second in [0u8, 1, 2] {
+                    let same_value = second == 0;
                     for &kind in &[std::io::ErrorKind::Other, std::io::ErrorKind::TimedOut] {
                         for side in [false, true] {
                             let mut n = 0u64;
                             loop {
                                 n += 1;
                                 plans += 1;
-                                let mut trace = vec![format!("V{} setter {} on {} same_value={} kind={:?} side_effects={} fault at call {}", version, setter, path, same_value, kind, side, n)];
+                                let mut trace = vec![format!("V{} setter {} on {} second call sets {} kind={:?} side_effects={} fault at call {}", version, setter, path, ["the same value", "another value", "the value before the failed call"][second as usize], kind, side, n)];
                                 let ctl = new_ctl(FaultDomain::WriteSide);
                                 let io = Io::new().with_ctl(ctl.clone());
                                 let img = io.peer();
@@ -274,6 +275,10 @@ pub fn metadata_retry_after_fault() -> Result<(u64, u64), Violation> {
                                     }
                                     c.create_storage("/st/inner")?;
                                     c.create_stream("/st/s")?.write_all(&[7u8; 100])?;
+                                    for p in ["/st", "/st/inner"] {
+                                        c.set_created_time(p, UNIX_EPOCH + Duration::new(900_000_000, 0))?;
+                                        c.set_modified_time(p, UNIX_EPOCH + Duration::new(900_000_000, 0))?;
+                                    }
                                     c.flush()
                                 })()
                                 .map_err(|e| fail("harness|setup", e.to_string(), &trace))?;
@@ -281,8 +286,19 @@ pub fn metadata_retry_after_fault() -> Result<(u64, u64), Violation> {
                                 let t2 = UNIX_EPOCH + Duration::new(1_500_000_000 + n, 700);
                                 let id1 = uuid::Uuid::from_u128(0x1111_2222_3333_4444_5555_6666_7777_8888 + n as u128);
                                 let id2 = uuid::Uuid::from_u128(0x9999_aaaa_bbbb_cccc_dddd_eeee_ffff_0000 + n as u128);
-                                let apply = |c: &mut cfb::CompoundFile<Io>, second: bool| -> std::io::Result<()> {
-                                    let alt = second && !same_value;
+                                let t0 = UNIX_EPOCH + Duration::new(900_000_000, 0);
+                                let apply = |c: &mut cfb::CompoundFile<Io>, is_second: bool| -> std::io::Result<()> {
+                                    if is_second && second == 2 {
+                                        // back to the value the object had before the failed call
+                                        return match setter {
+                                            0 => c.set_state_bits(path, 0),
+                                            1 => c.set_storage_clsid(path, uuid::Uuid::nil()),
+                                            2 => c.set_created_time(path, t0),
+                                            3 => c.set_modified_time(path, t0),
+                                            _ => c.touch(path),
+                                        };
+                                    }
+                                    let alt = is_second && !same_value;
                                     match setter {
                                         0 => c.set_state_bits(path, if alt { 0x0badf00d } else { 0xdeadbeef }),
                                         1 => c.set_storage_clsid(path, if alt { id2 } else { id1 }),
@@ -330,6 +346,10 @@ pub fn metadata_retry_after_fault() -> Result<(u64, u64), Violation> {
                                 let ok_live = match setter {
                                     // time setters leave streams untouched: always the zero FILETIME
                                     2 | 3 | 4 if !is_storage => live.2 == zero_time && live.3 == zero_time,
+                                    0 if second == 2 => live.0 == 0,
+                                    1 if second == 2 => live.1 == uuid::Uuid::nil(),
+                                    2 if second == 2 => live.2 == t0,
+                                    3 if second == 2 => live.3 == t0,
                                     0 => live.0 == if alt { 0x0badf00d } else { 0xdeadbeef },
                                     1 => live.1 == if alt { id2 } else { id1 },
                                     2 => live.2 == if alt { t2 } else { t1 },
